@@ -11,13 +11,17 @@ package server
 // reply, how many times was the resolver stand-in reached.
 
 import (
+	"bytes"
 	"context"
+	"encoding/base64"
 	"encoding/binary"
 	"encoding/json"
 	"fmt"
 	"math/big"
 	"math/rand"
 	"net"
+	"net/http"
+	"net/http/httptest"
 	"net/netip"
 	"os"
 	"strconv"
@@ -196,6 +200,8 @@ func vC17CoqRemote(tr middleware.Transport) string {
 	return fmt.Sprintf("(mk_remote %s %s %d %s)", kind, ip, port, says)
 }
 
+var vC17HTTPCount int
+
 // vC17LastReply is the reply the last vC17Serve / vC17ServeSlab call put on its transport (nil: none, or undecodable)
 var vC17LastReply *dns.Msg
 
@@ -210,7 +216,7 @@ func vC17Decode(b []byte) *dns.Msg {
 	return m
 }
 
-var vC17Paths = []string{"wire-udp-job", "decoded-udp", "decoded-tcp", "inline+replay", "wire-tcp-job", "doh-writer", "doq-like-writer", "foreign-addr-type", "declares-internal-writer"}
+var vC17Paths = []string{"wire-udp-job", "decoded-udp", "decoded-tcp", "inline+replay", "wire-tcp-job", "doh-writer", "doq-like-writer", "foreign-addr-type", "declares-internal-writer", "doh-servehttp"}
 
 // vC17Serve sends one query from (ip, port) over the given path through the server's production entry
 // points and reports the remote the transport showed and whether the client got a reply.
@@ -248,6 +254,28 @@ func vC17Serve(s *Server, path int, ip net.IP, port int, q *dns.Msg) (remote str
 		s.ServeMsg(context.Background(), tr, q)
 		vC17LastReply = tr.msg
 		return vC17CoqRemote(tr), tr.msg != nil
+	case 9:
+		// the production DoH / DoH3 entry point: Server.ServeHTTP on an HTTP request whose RemoteAddr is the peer (POST
+		// application/dns-message and GET ?dns= in turn). The client "got a reply" iff the HTTP response is a 200 carrying
+		// a DNS message; a denied client is left with an HTTP error and no DNS content. The remote shown to the model is
+		// what ServeHTTP builds from r.RemoteAddr (internal/mock.NewWriter("doh", r.RemoteAddr)).
+		raw, _ := q.Pack()
+		vC17HTTPCount++
+		var hr *http.Request
+		if vC17HTTPCount%2 == 0 {
+			hr = httptest.NewRequest(http.MethodPost, "/dns-query", bytes.NewReader(raw))
+			hr.Header.Set("Content-Type", "application/dns-message")
+		} else {
+			hr = httptest.NewRequest(http.MethodGet, "/dns-query?dns="+base64.RawURLEncoding.EncodeToString(raw), nil)
+		}
+		hr.RemoteAddr = ap()
+		rec := httptest.NewRecorder()
+		s.ServeHTTP(rec, hr)
+		ok := rec.Code == http.StatusOK && rec.Header().Get("Content-Type") == "application/dns-message"
+		if ok {
+			vC17LastReply = vC17Decode(rec.Body.Bytes())
+		}
+		return vC17CoqRemote(mock.NewWriter("doh", ap())), ok && vC17LastReply != nil
 	case 8:
 		tr := &vC17Declares{vC17Plain{addr: &net.UDPAddr{IP: ip, Port: port}, proto: "udp"}}
 		s.ServeMsg(context.Background(), tr, q)
@@ -259,6 +287,41 @@ func vC17Serve(s *Server, path int, ip net.IP, port int, q *dns.Msg) (remote str
 		vC17LastReply = tr.msg
 		return vC17CoqRemote(tr), tr.msg != nil
 	}
+}
+
+// vC17ViewPick reads off a reply which view's records it carries (every view record's data holds its view and index:
+// 198.18.<view>.<index> / 2001:db8::<view>:<index>): the model's [option (nat * list nat)]; view < 0: none
+func vC17ViewPick(look bool, m *dns.Msg) (answered string, goFail string, view int) {
+	answered, view = "None", -1
+	if !look || m == nil {
+		return
+	}
+	var served []string
+	for _, rr := range m.Answer {
+		vi, ri := -1, -1
+		switch x := rr.(type) {
+		case *dns.A:
+			if b := x.A.To4(); b != nil && b[0] == 198 && b[1] == 18 {
+				vi, ri = int(b[2]), int(b[3])
+			}
+		case *dns.AAAA:
+			if x.AAAA[0] == 0x20 && x.AAAA[1] == 0x01 && x.AAAA[2] == 0x0d && x.AAAA[3] == 0xb8 {
+				vi, ri = int(x.AAAA[13]), int(x.AAAA[15])
+			}
+		}
+		if vi < 0 {
+			continue
+		}
+		if view >= 0 && vi != view {
+			goFail = "one reply carries records of two views"
+		}
+		view = vi
+		served = append(served, fmt.Sprintf("%d%%nat", ri))
+	}
+	if view >= 0 {
+		answered = fmt.Sprintf("(Some (%d%%nat, [%s]))", view, strings.Join(served, "; "))
+	}
+	return
 }
 
 func vC17Big(a netip.Addr) *big.Int {
@@ -506,7 +569,7 @@ func TestVerifC17Chain(t *testing.T) {
 				src = g.Addr()
 			}
 			emitBurst(src.String(), net.IP(src.AsSlice()), 4242, 1-pr%2, 40+r.Intn(40), []uint16{dns.TypeDNSKEY, dns.TypeANY, dns.TypeTXT}[pr%3], "")
-			extra := 4 + r.Intn(4) // besides the four UDP/TCP paths, one of: TCP/DoT job, DoH writer, DoQ-like writer, foreign address type
+			extra := []int{4, 5, 6, 7, 9}[r.Intn(5)] // besides the four UDP/TCP paths, one of: TCP/DoT job, DoH writer, DoQ-like writer, foreign address type, Server.ServeHTTP
 			for _, path := range []int{0, 1, 2, 3, extra} {
 				for _, cached := range []bool{true, false} {
 					emitChain(src.String(), net.IP(src.AsSlice()), 4242, path, cached, "", -1)
@@ -572,7 +635,7 @@ func TestVerifC17Chain(t *testing.T) {
 		// the neighbourhood of the sub-query signature (127.0.0.255 port 0) on every transport: the sentinel address in
 		// both byte forms and its neighbours, port 0 and real ports, over all eight paths
 		for si, sip := range []net.IP{{127, 0, 0, 255}, net.IPv4(127, 0, 0, 255), {127, 0, 0, 254}, {127, 0, 1, 0}} {
-			for path := 0; path < 8; path++ {
+			for _, path := range []int{0, 1, 2, 3, 4, 5, 6, 7, 9} {
 				port := []int{0, 4242, 53, 65535, 1, 1024 + r.Intn(60000)}[r.Intn(6)]
 				if (si+path)%3 == 0 {
 					port = []int{4242, 40000, 1}[r.Intn(3)]
@@ -881,6 +944,153 @@ func TestVerifC17Chain(t *testing.T) {
 					"go_fail":    goFail,
 					"nontrivial": true,
 					"desc":       map[string]any{"accesslist": cidrs, "views": vdesc, "src": src.String(), "src_ip_bytes": len(ip), "src_port": port, "path": pathName, "question": qname + " " + dns.TypeToString[qtype], "resolved_before": cached, "answered_by_view": answered, "replied": replied, "resolver_calls": delta},
+				})
+				f.Write(append(b, '\n'))
+			}
+		}
+	}
+	// ---- genuine sub-queries against hostile client policy (session 5). The real default chain with an access list that
+	// does not admit the sub-query writer's address (all-unparsable = deny everyone, a LAN list, the sentinel's neighbour) or does,
+	// and views whose networks contain 127.0.0.255 (the loopback block, the /32, everything) holding records for the very
+	// names asked. A sub-query through the queryer / prefetch queryer autoWire injected must be resolved whatever the list and
+	// the views say; a CLIENT from the same address (real source port) asking the same question in the same configuration
+	// is judged by the list and answered by its view (emitted as ordinary CaseChainView: the policy is live).
+	nsq := 2 + n/6
+	for sc := 0; sc < nsq; sc++ {
+		zone := fmt.Sprintf("s%d.c17.test.", sc)
+		lists := [][]string{{"bogus/33"}, {"10.0.0.0/8"}, {}, {"127.0.0.0/8"}, {"127.0.0.254/32", "2001:db8::/32"}, {"bogus/33", "127.0.0.255/32"}}
+		cidrs := lists[(sc+seed)%len(lists)]
+		if sc >= len(lists) {
+			cidrs = lists[r.Intn(len(lists))]
+		}
+		var good []netip.Prefix
+		for _, e := range cidrs {
+			if p, err := netip.ParsePrefix(e); err == nil {
+				good = append(good, p)
+			}
+		}
+		nets := [][]string{{"127.0.0.0/8"}, {"127.0.0.255/32"}, {"0.0.0.0/0", "::/0"}, {"::ffff:127.0.0.255/128", "10.0.0.0/8"}, {"203.0.113.0/24", "127.0.0.128/25"}}
+		owners := []string{"host." + zone, "*." + zone, "*.sub." + zone, "HOST." + zone}
+		var vcfg []config.ViewConfig
+		var vcoq []string
+		var vdesc []any
+		nviews := 1 + r.Intn(2)
+		for vi := 0; vi < nviews; vi++ {
+			vn := nets[(sc+vi*2+r.Intn(2))%len(nets)]
+			var pc []string
+			for _, e := range vn {
+				pf := netip.MustParsePrefix(e)
+				pc = append(pc, fmt.Sprintf("mk_prefix %v %s %d", pf.Addr().Is4(), vC17Big(pf.Addr()).String(), pf.Bits()))
+			}
+			var answers, rcoq, rdesc []string
+			for k := 0; k < 2+r.Intn(3); k++ {
+				o := owners[(k+vi+r.Intn(2))%len(owners)]
+				ty := dns.TypeA
+				line := fmt.Sprintf("%s 60 IN A 198.18.%d.%d", o, vi, k)
+				if r.Intn(5) == 0 {
+					ty = dns.TypeAAAA
+					line = fmt.Sprintf("%s 60 IN AAAA 2001:db8::%x:%x", o, vi, k)
+				}
+				answers = append(answers, line)
+				rcoq = append(rcoq, fmt.Sprintf("(%s, %d%%N)", coqBytes(o), ty))
+				rdesc = append(rdesc, fmt.Sprintf("%d:%s/%s", k, o, dns.TypeToString[ty]))
+			}
+			vcfg = append(vcfg, config.ViewConfig{Zone: fmt.Sprintf("view%d", vi), Networks: vn, Answers: answers})
+			vcoq = append(vcoq, fmt.Sprintf("([%s], [%s])", strings.Join(pc, "; "), strings.Join(rcoq, "; ")))
+			vdesc = append(vdesc, map[string]any{"networks": vn, "records": rdesc})
+		}
+		witness := &vC17Witness{}
+		middleware.Reset()
+		defaults.RegisterUpTo("resolver")
+		middleware.Register(witness.Name(), func(*config.Config) middleware.Handler { return witness })
+		cfg := &config.Config{Bind: "127.0.0.1:0", Expire: 600, CacheSize: 10240, AccessList: append([]string(nil), cidrs...), Views: vcfg}
+		if sc%2 == 1 {
+			cfg.ReflexEnabled = true
+			cfg.ReflexBlockMode = true
+		}
+		cfg.QueryTimeout.Duration = 10 * time.Second
+		middleware.Setup(cfg)
+		s := New(cfg)
+		var pcoq []string
+		for _, g := range good {
+			pcoq = append(pcoq, fmt.Sprintf("mk_prefix %v %s %d", g.Addr().Is4(), vC17Big(g.Addr()).String(), g.Bits()))
+		}
+		questions := func() [][2]any {
+			qn++
+			return [][2]any{{"host." + zone, dns.TypeA}, {fmt.Sprintf("q%d.%s", qn, zone), dns.TypeA}, {"x.sub." + zone, dns.TypeA},
+				{fmt.Sprintf("q%d.elsewhere.test.", qn), dns.TypeA}, {"Host." + zone, dns.TypeAAAA}, {fmt.Sprintf("r%d.%s", qn, zone), dns.TypeAAAA}}
+		}
+		// (a) clients from the sentinel address (real port: a client; port 0: the address signature) and its neighbour
+		resolved := map[string]bool{}
+		for ci, cl := range []struct {
+			ip   net.IP
+			port int
+			path int
+		}{{net.IP{127, 0, 0, 255}, 40000, 2}, {net.IPv4(127, 0, 0, 255), 40001, 4}, {net.IP{127, 0, 0, 255}, 0, 2}, {net.IP{127, 0, 0, 254}, 0, 1}, {net.IP{127, 0, 0, 255}, 5353, 0}} {
+			for qi, qq := range questions() {
+				if (qi+ci+sc)%2 == 0 && qi > 0 {
+					continue
+				}
+				qname, qtype := qq[0].(string), qq[1].(uint16)
+				q := new(dns.Msg)
+				q.SetQuestion(qname, qtype)
+				q.SetEdns0(1232, false)
+				key := strings.ToLower(qname) + "/" + dns.TypeToString[qtype]
+				cached := resolved[key]
+				before := witness.calls
+				remote, replied := vC17Serve(s, cl.path, cl.ip, cl.port, q)
+				delta := witness.calls - before
+				if delta > 0 {
+					resolved[key] = true
+				}
+				answered, goFail, view := vC17ViewPick(replied && delta == 0, vC17LastReply)
+				k := "chainview-sentinel-denied"
+				switch {
+				case view >= 0:
+					k = "chainview-sentinel-answered-by-view"
+				case replied:
+					k = "chainview-sentinel-resolved"
+				}
+				b, _ := json.Marshal(map[string]any{
+					"k":          k,
+					"coq":        fmt.Sprintf("CaseChainView %d [%s] [%s] %s %d %s %d %v %s %v %d", len(cidrs), strings.Join(pcoq, "; "), strings.Join(vcoq, "; "), remote, cl.path, coqBytes(qname), qtype, cached, answered, replied, delta),
+					"go_fail":    goFail,
+					"nontrivial": true,
+					"desc":       map[string]any{"accesslist": cidrs, "views": vdesc, "src": cl.ip.String(), "src_ip_bytes": len(cl.ip), "src_port": cl.port, "path": vC17Paths[cl.path], "question": qname + " " + dns.TypeToString[qtype], "resolved_before": cached, "answered_by_view": answered, "replied": replied, "resolver_calls": delta},
+				})
+				f.Write(append(b, '\n'))
+			}
+		}
+		// (b) the same questions as genuine sub-queries
+		for via, qr := range []middleware.Queryer{witness.q, witness.pq} {
+			for _, qq := range questions() {
+				qname, qtype := qq[0].(string), qq[1].(uint16)
+				cached := resolved[strings.ToLower(qname)+"/"+dns.TypeToString[qtype]] // the queryer's sub-pipeline keeps the cache
+				q := new(dns.Msg)
+				q.SetQuestion(qname, qtype)
+				q.SetEdns0(4096, true)
+				goFail := ""
+				before := witness.calls
+				var resp *dns.Msg
+				if qr == nil {
+					goFail = "autoWire injected no queryer into the handler behind the default chain"
+				} else {
+					resp, _ = qr.Query(context.Background(), q)
+				}
+				delta := witness.calls - before
+				if via == 0 && delta > 0 {
+					resolved[strings.ToLower(qname)+"/"+dns.TypeToString[qtype]] = true
+				}
+				answered, gf, _ := vC17ViewPick(resp != nil, resp)
+				if goFail == "" {
+					goFail = gf
+				}
+				b, _ := json.Marshal(map[string]any{
+					"k":          "chain-subquery-" + []string{"queryer", "prefetch-queryer"}[via],
+					"coq":        fmt.Sprintf("CaseSubChain %d %d [%s] [%s] %s %d %v %s %v %d", via, len(cidrs), strings.Join(pcoq, "; "), strings.Join(vcoq, "; "), coqBytes(qname), qtype, cached, answered, resp != nil, delta),
+					"go_fail":    goFail,
+					"nontrivial": true,
+					"desc":       map[string]any{"via": []string{"queryer", "prefetch-queryer"}[via], "accesslist": cidrs, "views": vdesc, "reflex_block_mode": cfg.ReflexEnabled, "question": qname + " " + dns.TypeToString[qtype], "resolved_before": cached, "answered_by_view": answered, "replied": resp != nil, "resolver_calls": delta},
 				})
 				f.Write(append(b, '\n'))
 			}
